@@ -1,5 +1,6 @@
 import CC.Model.Wire
 import CC.Model.Keys
+import CC.Model.Sym
 /-! # From the symbolic keys to the wire
 
 The symbolic model (`CC.Model.Keys`, the state of the `World` machine) names cryptographic leaves by
@@ -32,6 +33,9 @@ structure Leaves (c : Cfg) where
   trap : Nat → Nat → Bytes
   mask : Nat → Nat → Bytes
   ct : Nat → Nat → Bytes
+  /-- AEAD: the nonce named by a token, and the box (ciphertext and MAC) of a sealed plaintext -/
+  nonce : Nat → Bytes
+  box : Sealed → Bytes
   scalar_len : ∀ t, (scalar t).length = c.sk
   scalar_ok : ∀ t, c.validSk (scalar t) = true
   point_len : ∀ t, (point t).length = c.pk
@@ -45,6 +49,8 @@ structure Leaves (c : Cfg) where
   trap_ok : ∀ s t, c.validPk (trap s t) = true
   mask_len : ∀ s k, (mask s k).length = SS
   ct_len : ∀ s k, (ct s k).length = c.enc
+  nonce_len : ∀ t, (nonce t).length = NONCE_LENGTH
+  box_len : ∀ s, (box s).length = s.ptx.length + 16
 
 /-- UTF-8 bytes of a name -/
 def strBytes (s : String) : Bytes := s.toUTF8.data.toList
@@ -94,5 +100,10 @@ def XEnc.toWire (L : Leaves c) (x : XEnc) : WEnc :=
     c := (tracerToks x.auth x.ntraps).map (L.trap x.seed)
     hyb := x.hybrid
     encs := x.targets.map (fun t => (if x.hybrid then L.ct x.seed t.tok else [], L.mask x.seed t.tok)) }
+
+/-- `EncryptedHeader`: the encapsulation, then nonce ‖ box of the metadata when there is one -/
+def Header.toWire (L : Leaves c) (h : Header) : WHeader :=
+  { enc := h.enc.toWire L
+    mdata := h.mdata.map (fun s => L.nonce s.nonce ++ L.box s) }
 
 end CC
